@@ -8,15 +8,15 @@ func init() {
 
 	// DELETE FROM event_trigger_registered_event WHERE block_number >= $1
 	// (fired_triggers rows referencing a deleted event go too: ON DELETE CASCADE)
-	reg(p+"DeleteEventTriggerRegisteredEventsFromBlockNumber", "?", params(i8), nil, ordered,
+	reg(p+"DeleteEventTriggerRegisteredEventsFromBlockNumber", "7f579ecd449db0cf", params(i8), nil, ordered,
 		deleteStmt("event_trigger_registered_event", func(r Row, a []any) bool { return sqlGe(r["block_number"], a[0]) }))
 
 	// DELETE FROM fired_triggers WHERE block_number >= $1
-	reg(p+"DeleteFiredTriggersFromBlockNumber", "?", params(i8), nil, ordered,
+	reg(p+"DeleteFiredTriggersFromBlockNumber", "e8ba0365a1770bb0", params(i8), nil, ordered,
 		deleteStmt("fired_triggers", func(r Row, a []any) bool { return sqlGe(r["block_number"], a[0]) }))
 
 	// DELETE FROM identity_registered_event WHERE block_number >= $1
-	reg(p+"DeleteIdentityRegisteredEventsFromBlockNumber", "?", params(i8), nil, ordered,
+	reg(p+"DeleteIdentityRegisteredEventsFromBlockNumber", "13730194a67a2ee7", params(i8), nil, ordered,
 		deleteStmt("identity_registered_event", func(r Row, a []any) bool { return sqlGe(r["block_number"], a[0]) }))
 
 	// SELECT <all columns> FROM event_trigger_registered_event e
@@ -25,7 +25,7 @@ func init() {
 	// AND NOT EXISTS (  -- not fired yet
 	//     SELECT 1 FROM fired_triggers t WHERE t.eon = e.eon AND t.identity = e.identity)
 	// No ORDER BY.
-	reg(p+"GetActiveEventTriggerRegisteredEvents", "?", params(i8), starCols("event_trigger_registered_event"), unordered,
+	reg(p+"GetActiveEventTriggerRegisteredEvents", "f7f676e9d9275821", params(i8), starCols("event_trigger_registered_event"), unordered,
 		func(tx *Store, a []any) ([][]any, string, error) {
 			rows := tx.where("event_trigger_registered_event", func(e Row) bool {
 				return sqlGe(e["expiration_block_number"], a[0]) && sqlEq(e["decrypted"], false) &&
@@ -38,14 +38,14 @@ func init() {
 
 	// SELECT eon, triggered_block_number, identities_hash FROM current_decryption_trigger
 	// WHERE eon = $1 ORDER BY triggered_block_number DESC LIMIT 1       (unique within an eon)
-	reg(p+"GetCurrentDecryptionTrigger", "?", params(i8), starCols(cdt), ordered,
+	reg(p+"GetCurrentDecryptionTrigger", "dc9ccf3257aa01d5", params(i8), starCols(cdt), ordered,
 		selectStmt(cdt, allCols(cdt), func(r Row, a []any) bool { return sqlEq(r["eon"], a[0]) },
 			[]sortKey{desc("triggered_block_number")}, 1))
 
 	// SELECT eon, keyper_index, identities_hash, signature FROM decryption_signatures
 	// WHERE eon = $1 AND identities_hash = $2 ORDER BY keyper_index ASC LIMIT $3
 	// (keyper_index is unique for fixed eon and identities_hash; LIMIT takes a bigint)
-	reg(p+"GetDecryptionSignatures", "?", params(i8, bya, i8), starCols("decryption_signatures"), ordered,
+	reg(p+"GetDecryptionSignatures", "3b562aafe62b29f1", params(i8, bya, i8), starCols("decryption_signatures"), ordered,
 		func(tx *Store, a []any) ([][]any, string, error) {
 			rows := orderRows(tx.where("decryption_signatures", func(r Row) bool {
 				return sqlEq(r["eon"], a[0]) && sqlEq(r["identities_hash"], a[1])
@@ -58,17 +58,17 @@ func init() {
 		})
 
 	// SELECT enforce_one_row, block_hash, block_number FROM identity_registered_events_synced_until LIMIT 1
-	reg(p+"GetIdentityRegisteredEventsSyncedUntil", "?", nil, starCols("identity_registered_events_synced_until"), unordered,
+	reg(p+"GetIdentityRegisteredEventsSyncedUntil", "2395713f667346b1", nil, starCols("identity_registered_events_synced_until"), unordered,
 		selectStmt("identity_registered_events_synced_until", allCols("identity_registered_events_synced_until"), nil, nil, 1))
 
 	// SELECT enforce_one_row, block_number, block_hash FROM multi_event_sync_status LIMIT 1
-	reg(p+"GetMultiEventSyncStatus", "?", nil, starCols("multi_event_sync_status"), unordered,
+	reg(p+"GetMultiEventSyncStatus", "efc374481990315e", nil, starCols("multi_event_sync_status"), unordered,
 		selectStmt("multi_event_sync_status", allCols("multi_event_sync_status"), nil, nil, 1))
 
 	// SELECT <all columns> FROM identity_registered_event
 	// WHERE timestamp >= $1 AND timestamp <= $2 AND decrypted = false
 	// ORDER BY timestamp ASC              (timestamp is not unique: ties come in scan order)
-	reg(p+"GetNotDecryptedIdentityRegisteredEvents", "?", params(i8, i8), starCols("identity_registered_event"), unordered,
+	reg(p+"GetNotDecryptedIdentityRegisteredEvents", "dc8a40b6fb1b1595", params(i8, i8), starCols("identity_registered_event"), unordered,
 		selectStmt("identity_registered_event", allCols("identity_registered_event"), func(r Row, a []any) bool {
 			return sqlGe(r["timestamp"], a[0]) && sqlLe(r["timestamp"], a[1]) && sqlEq(r["decrypted"], false)
 		}, []sortKey{asc("timestamp")}, -1))
@@ -82,7 +82,7 @@ func init() {
 	//     SELECT 1 FROM event_trigger_registered_event e
 	//     WHERE e.eon = f.eon AND e.identity = f.identity AND e.decrypted = true)
 	// No ORDER BY.
-	reg(p+"GetUndecryptedFiredTriggers", "?", nil,
+	reg(p+"GetUndecryptedFiredTriggers", "8757fc78c0d8989b", nil,
 		concatCols(colsOf("fired_triggers", "identity_prefix", "sender", "block_number", "block_hash", "tx_index", "log_index"),
 			colsOf("event_trigger_registered_event", "eon", "expiration_block_number", "identity", "decrypted")), unordered,
 		func(tx *Store, a []any) ([][]any, string, error) {
@@ -105,7 +105,7 @@ func init() {
 
 	// INSERT INTO decryption_signatures (eon, keyper_index, identities_hash, signature)
 	// VALUES ($1, $2, $3, $4) ON CONFLICT DO NOTHING
-	reg(p+"InsertDecryptionSignature", "?", params(i8, i8, bya, bya), nil, ordered,
+	reg(p+"InsertDecryptionSignature", "482f9177babecfae", params(i8, i8, bya, bya), nil, ordered,
 		insertStmt("decryption_signatures", []string{"eon", "keyper_index", "identities_hash", "signature"}, always(doNothing())))
 
 	// INSERT INTO event_trigger_registered_event (block_number, block_hash, tx_index, log_index, eon,
@@ -115,7 +115,7 @@ func init() {
 	// block_number = $1, block_hash = $2, tx_index = $3, log_index = $4,
 	// definition = $8, expiration_block_number = $9, identity = $10
 	// On conflict eon, identity_prefix, sender and decrypted keep their old values.
-	reg(p+"InsertEventTriggerRegisteredEvent", "?", params(i8, bya, i8, i8, i8, bya, txt, bya, i8, bya), nil, ordered,
+	reg(p+"InsertEventTriggerRegisteredEvent", "c6b76fb70fa10a51", params(i8, bya, i8, i8, i8, bya, txt, bya, i8, bya), nil, ordered,
 		insertStmt("event_trigger_registered_event",
 			[]string{"block_number", "block_hash", "tx_index", "log_index", "eon", "identity_prefix", "sender", "definition", "expiration_block_number", "identity"},
 			setParams([]string{"eon", "identity"}, map[string]int{
@@ -126,7 +126,7 @@ func init() {
 	// VALUES ($1, $2, $3, $4, $5, $6, $7, $8)
 	// ON CONFLICT (eon, identity) DO NOTHING
 	// (without a registered event (eon, identity) the insert violates the foreign key: 23503)
-	reg(p+"InsertFiredTrigger", "?", params(i8, bya, bya, txt, i8, bya, i8, i8), nil, ordered,
+	reg(p+"InsertFiredTrigger", "7482ed6ba519571f", params(i8, bya, bya, txt, i8, bya, i8, i8), nil, ordered,
 		insertStmt("fired_triggers",
 			[]string{"eon", "identity", "identity_prefix", "sender", "block_number", "block_hash", "tx_index", "log_index"},
 			always(doNothingOn("eon", "identity"))))
@@ -138,7 +138,7 @@ func init() {
 	// block_number = $1, block_hash = $2, tx_index = $3, log_index = $4,
 	// sender = $7, timestamp = $8, identity = $9
 	// On conflict eon, identity_prefix and decrypted keep their old values.
-	reg(p+"InsertIdentityRegisteredEvent", "?", params(i8, bya, i8, i8, i8, bya, txt, i8, bya), nil, ordered,
+	reg(p+"InsertIdentityRegisteredEvent", "2652807c64c3e52a", params(i8, bya, i8, i8, i8, bya, txt, i8, bya), nil, ordered,
 		insertStmt("identity_registered_event",
 			[]string{"block_number", "block_hash", "tx_index", "log_index", "eon", "identity_prefix", "sender", "timestamp", "identity"},
 			setParams([]string{"identity_prefix", "sender"}, map[string]int{
@@ -149,19 +149,19 @@ func init() {
 	// VALUES ($1, $2, $3)
 	// ON CONFLICT (eon, triggered_block_number) DO UPDATE
 	// SET triggered_block_number = $2, identities_hash = $3
-	reg(p+"SetCurrentDecryptionTrigger", "?", params(i8, i8, bya), nil, ordered,
+	reg(p+"SetCurrentDecryptionTrigger", "47d8cf336f35151d", params(i8, i8, bya), nil, ordered,
 		insertStmt(cdt, []string{"eon", "triggered_block_number", "identities_hash"},
 			setParams([]string{"eon", "triggered_block_number"}, map[string]int{"triggered_block_number": 2, "identities_hash": 3})))
 
 	// INSERT INTO identity_registered_events_synced_until (block_hash, block_number) VALUES ($1, $2)
 	// ON CONFLICT (enforce_one_row) DO UPDATE SET block_hash = $1, block_number = $2
-	reg(p+"SetIdentityRegisteredEventSyncedUntil", "?", params(bya, i8), nil, ordered,
+	reg(p+"SetIdentityRegisteredEventSyncedUntil", "444b5da4261dbe1f", params(bya, i8), nil, ordered,
 		insertStmt("identity_registered_events_synced_until", []string{"block_hash", "block_number"},
 			setParams([]string{"enforce_one_row"}, map[string]int{"block_hash": 1, "block_number": 2})))
 
 	// INSERT INTO multi_event_sync_status (block_number, block_hash) VALUES ($1, $2)
 	// ON CONFLICT (enforce_one_row) DO UPDATE SET block_number = $1, block_hash = $2
-	reg(p+"SetMultiEventSyncStatus", "?", params(i8, bya), nil, ordered,
+	reg(p+"SetMultiEventSyncStatus", "cf18723e39c2411c", params(i8, bya), nil, ordered,
 		insertStmt("multi_event_sync_status", []string{"block_number", "block_hash"},
 			setParams([]string{"enforce_one_row"}, map[string]int{"block_number": 1, "block_hash": 2})))
 
@@ -170,12 +170,12 @@ func init() {
 	// The two UNNESTs advance in lock step: the i-th eon is paired with the i-th
 	// identity; if the arrays differ in length the shorter one is padded with
 	// NULL, and a pair containing NULL matches no row.
-	reg(p+"UpdateEventBasedDecryptedFlags", "?", params(i8Arr, byaArr), nil, ordered,
+	reg(p+"UpdateEventBasedDecryptedFlags", "876f2de504539451", params(i8Arr, byaArr), nil, ordered,
 		updateDecryptedFlags("event_trigger_registered_event"))
 
 	// UPDATE identity_registered_event SET decrypted = TRUE
 	// WHERE (eon, identity) IN (SELECT UNNEST($1::bigint[]), UNNEST($2::bytea[]))
-	reg(p+"UpdateTimeBasedDecryptedFlags", "?", params(i8Arr, byaArr), nil, ordered,
+	reg(p+"UpdateTimeBasedDecryptedFlags", "64d486e319c1dcfe", params(i8Arr, byaArr), nil, ordered,
 		updateDecryptedFlags("identity_registered_event"))
 }
 
